@@ -81,7 +81,8 @@ fn main() {
         }
         if thorough {
             // triples: one thread with 2 operations, two threads with 1
-            for a in &progs2 {
+            // (restricted to the first four letters of the alphabet to keep the tier within minutes)
+            for a in &programs(2, &alpha[..4]) {
                 if a.len() < 2 {
                     continue;
                 }
@@ -100,11 +101,11 @@ fn main() {
         base, alpha, if thorough { "; plus triples with one 2-operation thread" } else { "" }
     );
     rep.bounds = json!({"threads": "2-3", "ops_per_thread": 2, "mode": "U (sleep sets, unbounded)", "drivers": ndrivers});
-    let cap = if thorough { 2_000_000 } else { 200_000 };
+    let cap = if thorough { 400_000 } else { 200_000 };
     // deviation budget (at most one spurious compare_exchange_weak failure per execution): everywhere in the
     // thorough tier, for the drivers with at most 3 calls in the quick tier
     let cl = |d: &CellDriver| CellDriver { flavour: d.flavour, prelude: d.prelude.clone(), programs: d.programs.clone() };
-    let (small, large): (Vec<CellDriver>, Vec<CellDriver>) = drivers.into_iter().partition(|d| thorough || d.programs.iter().map(|p| p.len()).sum::<usize>() <= 3 && d.programs.len() == 2);
+    let (small, large): (Vec<CellDriver>, Vec<CellDriver>) = drivers.into_iter().partition(|d| d.programs.iter().map(|p| p.len()).sum::<usize>() <= 3 && (thorough || d.programs.len() == 2));
     SPURIOUS_BUDGET.store(1, std::sync::atomic::Ordering::Relaxed);
     let mut results = explore_many(small, Mode::U, cap, 3, 16, cl);
     SPURIOUS_BUDGET.store(0, std::sync::atomic::Ordering::Relaxed);
